@@ -21,6 +21,7 @@ import (
 	"verifharness/refstore"
 
 	"github.com/zitadel/oidc/v3/pkg/oidc"
+	"github.com/zitadel/oidc/v3/pkg/op"
 )
 
 // ---------------------------------------------------------------- vocabulary
@@ -164,6 +165,8 @@ func (o Op) Coq() string {
 		t = emit.Ctor("TokenRefresh", placeCoq[o.Place], o.Cred.Coq(), optNat(o.RT), emit.StrList(o.Scopes))
 	case "droprefresh":
 		t = emit.Ctor("DropRefresh", emit.Str(o.Client))
+	case "revoke":
+		t = emit.Ctor("RevokeRT", emit.Nat(o.RT))
 	}
 	return emit.Pair(routerCoq(o.Router), t)
 }
@@ -208,7 +211,8 @@ func (t *Tokens) Coq() string {
 // ClientInfo is the driver's view of one registration (the model's `client`).
 type ClientInfo struct {
 	ID, Secret string
-	Auth       string // "basic" | "post" | "none" | "pkjwt"
+	Auth       string // "basic" | "post" | "none" | "pkjwt" | "other" (any value the library does not name)
+	RawAuth    string // what Client.AuthMethod() returns
 	Redirects  []string
 	Code       bool
 	Refresh    bool
@@ -216,7 +220,7 @@ type ClientInfo struct {
 }
 
 func (c ClientInfo) Coq() string {
-	am := map[string]string{"basic": "AM_Basic", "post": "AM_Post", "none": "AM_None", "pkjwt": "AM_PKJWT"}[c.Auth]
+	am := map[string]string{"basic": "AM_Basic", "post": "AM_Post", "none": "AM_None", "pkjwt": "AM_PKJWT", "other": "AM_Other"}[c.Auth]
 	return "{| c_id := " + emit.Str(c.ID) + "; c_secret := " + emit.Str(c.Secret) + "; c_auth := " + am +
 		"; c_redirects := " + emit.StrList(c.Redirects) + "; c_code := " + emit.Bool(c.Code) +
 		"; c_refresh := " + emit.Bool(c.Refresh) + "; c_jwt := " + emit.Bool(c.JWT) + " |}"
@@ -229,7 +233,14 @@ type Options struct {
 	LiveGrants                 bool   // the storage hands out the live refresh grant (refstore ext_c07.go)
 	KeepRT                     bool   // the storage does not rotate refresh tokens (refstore ext_c07.go)
 	NoReqObj                   bool   // Config.RequestObjectSupported off
+	Loud                       bool   // the storage returns what it knows NEXT TO the error of a refused lookup (refstore AsLoudStorage)
+	AuthOther                  map[string]string // client id -> registered auth method outside the four named values
 }
+
+// OtherAuthMethods: values of Client.AuthMethod() the library has no name for. The empty string
+// is what a storage returns for an unset token_endpoint_auth_method (default client_secret_basic).
+var OtherAuthMethods = []string{"", "", "client_secret_jwt", "tls_client_auth", "CLIENT_SECRET_BASIC", "Client_Secret_Post",
+	"client_secret_post ", "NONE", "None", "Private_Key_JWT", "none ", "basic", "null"}
 
 // RODefects: ways a Request Object fails op.ParseRequestObject.
 var RODefects = []string{"wrong-key", "wrong-aud", "wrong-iss", "other-client", "unknown-kid", "no-iss"}
@@ -392,17 +403,29 @@ func NewWorld(o Options) (*World, error) {
 		k := opfix.ECKey("client-" + id)
 		st.Clients[id].Keys = map[string]*jose.JSONWebKey{"k1": {Key: &k.PublicKey, KeyID: "k1", Algorithm: "ES256", Use: "sig"}}
 	}
+	for id, m := range o.AuthOther {
+		if c, ok := st.Clients[id]; ok {
+			c.Auth = oidc.AuthMethod(m)
+		}
+	}
 	st.Users["team:carol"] = &refstore.User{Subject: "team:carol", Name: "Carol C", Email: "carol@example.com"}
 	st.SetLiveRefreshGrants(o.LiveGrants)
 	st.SetKeepRefreshTokens(o.KeepRT)
-	f, err := opfix.New(st, opfix.Options{NoPost: o.NoPost, NoPKJWT: o.NoPKJWT, NoRefresh: o.NoRefresh, NoReqObj: o.NoReqObj})
+	fo := opfix.Options{NoPost: o.NoPost, NoPKJWT: o.NoPKJWT, NoRefresh: o.NoRefresh, NoReqObj: o.NoReqObj}
+	var f *opfix.Fixture
+	var err error
+	if o.Loud {
+		f, err = opfix.NewWithStorage(st, st.AsLoudStorage(), fo, op.StaticIssuer(opfix.Issuer))
+	} else {
+		f, err = opfix.New(st, fo)
+	}
 	if err != nil {
 		return nil, err
 	}
 	w := &World{F: f, St: st, Opts: o, Vers: map[string]bool{}, canonOf: map[string]int{}, realOf: map[int]string{}}
 	for _, c := range opfix.StdClients() { // fixed order
 		rc := st.Clients[c.ID]
-		ci := ClientInfo{ID: rc.ID, Secret: rc.Secret, Redirects: rc.Redirects, JWT: rc.ATType != 0}
+		ci := ClientInfo{ID: rc.ID, Secret: rc.Secret, Redirects: rc.Redirects, JWT: rc.ATType != 0, Auth: "other", RawAuth: string(rc.Auth)}
 		switch rc.Auth {
 		case oidc.AuthMethodBasic:
 			ci.Auth = "basic"
@@ -762,6 +785,10 @@ func (w *World) Exec(o Op) Out {
 		}
 		basic := w.applyCred(o.Cred, form)
 		return w.tokenOut(w.tokenRequest(o.Router, o.Place, form, "refresh_token", w.realID("rt", DecoyID), "authorization_code", basic))
+	case "revoke":
+		// the storage lets the token expire: it refuses it from now on, though it still holds the record
+		w.St.ExpireRefreshToken(w.realID("rt", o.RT))
+		return Out{Coq: "ODone"}
 	case "droprefresh":
 		if c, ok := w.St.Clients[o.Client]; ok {
 			c.Grants = without(c.Grants, oidc.GrantTypeRefreshToken)
